@@ -5,6 +5,7 @@
 -/
 import FlacModel.Model.RateEnc
 import FlacModel.Props.C16
+import FlacModel.Proofs.CodecB
 
 namespace Flac.C16
 open Flac Flac.Gen
@@ -157,11 +158,142 @@ theorem accepted_block_size_self_describing (n c : Nat) (h : encBlockSizeCode n 
         simp only [blockSizeOkB, e1, e2, Bool.false_eq_true, if_false, if_true, Bool.and_eq_true, decide_eq_true_eq]
         omega
 
+theorem number_wf (v : Nat) (h : v < 2 ^ 36) : numWfB v (encNumberBytes v) = true := by
+  unfold encNumberBytes numWfB
+  have p7 : (2 : Nat) ^ 7 = 128 := by decide
+  have p11 : (2 : Nat) ^ 11 = 2048 := by decide
+  have p16 : (2 : Nat) ^ 16 = 65536 := by decide
+  have p21 : (2 : Nat) ^ 21 = 2097152 := by decide
+  have p26 : (2 : Nat) ^ 26 = 67108864 := by decide
+  have p31 : (2 : Nat) ^ 31 = 2147483648 := by decide
+  have p36 : (2 : Nat) ^ 36 = 68719476736 := by decide
+  rw [p36] at h
+  simp only [p7, p11, p16, p21, p26, p31]
+  split
+  · simp; omega
+  · split
+    · simp; omega
+    · split
+      · simp; omega
+      · split
+        · simp; omega
+        · split
+          · simp; omega
+          · split
+            · simp; omega
+            · simp; omega
+
+/-- **Every header the stream writer builds for parameters it accepts is well-formed without STREAMINFO** (`headerWfB none`, proved sound
+    for `HeaderWf none`, the header part of the domain of `C16.written_frame_standalone`): whatever rate, depth, channel assignment, block
+    length and frame number it was asked for, either it refuses or the header it writes carries all of them by itself. -/
+theorem stream_writer_header_wf (rate bps : Nat) (a : Assign) (n number hcrc : Nat) (hnum : number < 2 ^ 36) (hc : hcrc < 2 ^ 8) (h : Header)
+    (hh : streamWriterHeader rate bps a n number hcrc = some h) : headerWfB none h = true := by
+  unfold streamWriterHeader at hh
+  cases hr : streamWriterRate rate with
+  | none => rw [hr] at hh; cases hh
+  | some rc =>
+    cases hb : streamWriterBps bps with
+    | none => rw [hr, hb] at hh; cases hh
+    | some bc =>
+      cases hs : encBlockSizeCode n with
+      | none => rw [hr, hb, hs] at hh; cases hh
+      | some sc =>
+        rw [hr, hb, hs] at hh
+        dsimp only at hh
+        by_cases hch : assignOkB a = true
+        · simp only [hch, if_true, Option.some.injEq] at hh
+          subst hh
+          obtain ⟨r1, r2, r3, r4⟩ := accepted_rate_self_describing rate rc hr
+          obtain ⟨b1, b2, b3, b4⟩ := accepted_bps_self_describing bps bc hb
+          obtain ⟨s1, s2, s3, s4, s5⟩ := accepted_block_size_self_describing n sc hs
+          simp only [headerWfB, s3, s4, r1, r2, r3, b1, b2, b3, b4, r4, s5, number_wf number hnum, hc, hch, decide_true,
+            Bool.not_false, Bool.and_self, Bool.true_and, Bool.false_and, Option.isNone_none, Bool.and_true, Bool.false_eq_true, if_false,
+            Option.getD_some, beq_self_eq_true, Bool.not_true]
+        · simp only [hch, Bool.false_eq_true, if_false] at hh
+          cases hh
+
+theorem bps_le_32 : encBpsLiterals.all (· ≤ 32) = true := by decide
+
+theorem accepted_bps_le (bps c : Nat) (h : streamWriterBps bps = some c) : bps ≤ 32 := by
+  unfold streamWriterBps at h
+  by_cases hl : encBpsLiterals.contains bps = true
+  · have := List.all_eq_true.mp bps_le_32 bps (by simpa using hl)
+    simpa using this
+  · have hflag : streamWriterRefusesStreaminfoBps = true := rfl
+    simp only [hl, Bool.false_eq_true, if_false, hflag, if_true] at h
+    cases h
+
+/-- **Every frame the stream writer emits stands alone.**  Take any parameters it accepts, any channel assignment, and any subframes
+    the encoder's search may produce for them (well-formed for that header: `subsWf`), byte-aligned with zero to seven padding bits:
+    the frame is well-formed WITHOUT any STREAMINFO, so (`C16.written_frame_standalone`) it decodes from its own bytes alone to the
+    samples its subframes expand to. -/
+theorem stream_writer_frame_wf (rate bps : Nat) (a : Assign) (n number : Nat) (hnum : number < 2 ^ 36) (h0 : Header)
+    (hh : streamWriterHeader rate bps a n number 0 = some h0) (subs : List Subframe) (padding : Bits) (footer : Nat)
+    (hcount : subs.length = a.count) (hsubs : subsWf decLayout a n bps subs 0) (hpad : padding.length < 8)
+    (hal : ((writeSubframes a bps subs 0).length + padding.length) % 8 = 0) :
+    FrameWf none { hdr := { h0 with hcrc := crc8 (bitsToBytes (writeHeaderFields h0)) }, subs := subs, padding := padding, footer := footer } := by
+  have hh' : streamWriterHeader rate bps a n number (crc8 (bitsToBytes (writeHeaderFields h0)))
+      = some { h0 with hcrc := crc8 (bitsToBytes (writeHeaderFields h0)) } := by
+    unfold streamWriterHeader at hh ⊢
+    cases hr : streamWriterRate rate with
+    | none => rw [hr] at hh; cases hh
+    | some rc =>
+      cases hb : streamWriterBps bps with
+      | none => rw [hr, hb] at hh; cases hh
+      | some bc =>
+        cases hs : encBlockSizeCode n with
+        | none => rw [hr, hb, hs] at hh; cases hh
+        | some sc =>
+          rw [hr, hb, hs] at hh
+          dsimp only at hh ⊢
+          by_cases hch : assignOkB a = true
+          · simp only [hch, if_true, Option.some.injEq] at hh ⊢
+            subst hh; rfl
+          · simp only [hch, Bool.false_eq_true, if_false] at hh; cases hh
+  have hwf := headerWfB_sound none _ (stream_writer_header_wf rate bps a n number _ hnum (crc8_lt _) _ hh')
+  -- the fields of the header
+  have hfields : h0.assign = a ∧ h0.blockSize = n ∧ h0.bps = bps ∧ bps ≤ 32 := by
+    unfold streamWriterHeader at hh
+    cases hr : streamWriterRate rate with
+    | none => rw [hr] at hh; cases hh
+    | some rc =>
+      cases hb : streamWriterBps bps with
+      | none => rw [hr, hb] at hh; cases hh
+      | some bc =>
+        cases hs : encBlockSizeCode n with
+        | none => rw [hr, hb, hs] at hh; cases hh
+        | some sc =>
+          rw [hr, hb, hs] at hh
+          dsimp only at hh
+          by_cases hch : assignOkB a = true
+          · simp only [hch, if_true, Option.some.injEq] at hh
+            subst hh
+            exact ⟨rfl, rfl, rfl, accepted_bps_le bps bc hb⟩
+          · simp only [hch, Bool.false_eq_true, if_false] at hh; cases hh
+  obtain ⟨f1, f2, f3, f4⟩ := hfields
+  exact { hdr := hwf, hcrc := rfl, check := rfl, bps := by show h0.bps ≤ 32; rw [f3]; exact f4,
+          count := by show subs.length = h0.assign.count; rw [f1]; exact hcount,
+          subs := by show subsWf decLayout h0.assign h0.blockSize h0.bps subs 0; rw [f1, f2, f3]; exact hsubs,
+          padLt := hpad,
+          aligned := by show ((writeSubframes h0.assign h0.bps subs 0).length + padding.length) % 8 = 0; rw [f1, f3]; exact hal }
+
+/-- … hence it is read back from its own bytes alone, with the samples its subframes expand to -/
+theorem stream_writer_frame_standalone (p : Profile) (rate bps : Nat) (a : Assign) (n number : Nat) (hnum : number < 2 ^ 36) (h0 : Header)
+    (hh : streamWriterHeader rate bps a n number 0 = some h0) (subs : List Subframe) (padding : Bits) (footer : Nat)
+    (hcount : subs.length = a.count) (hsubs : subsWf decLayout a n bps subs 0) (hpad : padding.length < 8)
+    (hal : ((writeSubframes a bps subs 0).length + padding.length) % 8 = 0)
+    (xss out : List (List Int))
+    (hx : subsDecode p h0.assign h0.blockSize h0.bps subs xss 0) (hr : recorrelate p h0.assign h0.bps xss = .ok out) :
+    let f : Frame := { hdr := { h0 with hcrc := crc8 (bitsToBytes (writeHeaderFields h0)) }, subs := subs, padding := padding, footer := footer }
+    Standalone p f.serialize { hdr := f.hdr, channels := out, used := f.serialize.length } :=
+  written_frame_standalone p _ xss out (stream_writer_frame_wf rate bps a n number hnum h0 hh subs padding footer hcount hsubs hpad hal) hx hr
+
 /-- non-vacuity, both ways -/
 example : streamWriterRate 44100 = some 9 ∧ streamWriterRate 12000 = some 12 ∧ streamWriterRate 11025 = some 13 ∧ streamWriterRate 655340 = some 14
     ∧ streamWriterRate 768000 = none ∧ streamWriterRate 65537 = none ∧ streamWriterRate 2000000 = none
     ∧ streamWriterBps 16 = some 4 ∧ streamWriterBps 32 = some 7 ∧ streamWriterBps 10 = none ∧ streamWriterBps 1 = none
     ∧ encBlockSizeCode 4096 = some 12 ∧ encBlockSizeCode 100 = some 6 ∧ encBlockSizeCode 1000 = some 7 ∧ encBlockSizeCode 0 = none
-    ∧ encBlockSizeCode 65536 = none := by decide
+    ∧ encBlockSizeCode 65536 = none
+    ∧ (streamWriterHeader 44100 16 (.indep 2) 4096 7 0).isSome = true ∧ (streamWriterHeader 768000 16 (.indep 2) 4096 7 0).isSome = false := by decide
 
 end Flac.C16
